@@ -36,15 +36,16 @@ Proof.
   vm_compute in H. discriminate.
 Qed.
 
-(** 3. Update that changes an indexed field, then Del, then Save (no Replace
-    involved): the index entry of the saved row stays behind. *)
-Lemma refuted_update_del :
-  ~ (forall ops, keys_ok ops = true -> forallb (fun o => negb (is_replace o)) ops = true ->
-       errs_agree ops -> saved_agrees ops).
-Proof.
-  intro H. specialize (H w_update_del eq_refl eq_refl eq_refl). unfold saved_agrees in H.
-  vm_compute in H. discriminate.
-Qed.
+(** 3. (repaired in table.go Del) Update that changes an indexed field, then
+    Del, then Save: the Del row now carries the saved data, so the saved row's
+    index entries are removed.  The history is inside the guard and meets the
+    hypotheses of [update_del_fixed]; the store is empty after the save. *)
+Example update_del_witness_ok :
+  safe_words w_update_del = true /\ keys_ok w_update_del = true /\
+  forallb (fun o => negb (is_replace o)) w_update_del = true /\
+  fst (run init w_update_del) = fst (s_run [] w_update_del) /\
+  kv (snd (run init (w_update_del ++ [OSave]))) = [].
+Proof. vm_compute. repeat split; reflexivity. Qed.
 
 (** 4. Only Adds: two rows whose (index value, primary key) pairs are glued to
     the same index key by the "-" separator share one index entry. *)
@@ -60,19 +61,19 @@ Proof.
   intro H. destruct (H w_del_add) as [E _]. unfold errs_agree in E. vm_compute in E. discriminate.
 Qed.
 
-(** the guard rejects the four witnesses … *)
+(** the guard rejects the three witnesses of the open findings … *)
 Example guard_rejects_witnesses :
-  map safe_words [w_del_add; w_del_replace; w_update_del; w_sep] = [false; false; false; false].
+  map safe_words [w_del_add; w_del_replace; w_sep] = [false; false; false].
 Proof. vm_compute. reflexivity. Qed.
 
 (** … and accepts non-trivial histories: several operations per key between
     saves (Add.Update.Del.Add, Update.Update, Replace chains, Add.Del, an
     Update that changes an indexed field followed by a Replace, a Del of a
-    saved row whose pending update left the indexed fields alone), three saves. *)
+    saved row whose pending update changed an indexed field), three saves. *)
 Definition w_safe : list op :=
   [OAdd w_r1; OUpdate k1 w_r1b; ODel k1; OAdd w_r1; OAdd w_r2; OAdd w_r2; OSave;
    OUpdate k1 w_r1b; OUpdate k1 w_r1; OReplace w_r2; OReplace (mkRow k2 (bs "b") (bs "") 7); OSave;
-   OUpdate k2 (mkRow k2 (bs "b") (bs "") 9); ODel k2; ODelRow w_r1; ODel (bs "zz"); OUpdate k2 w_r1; OSave].
+   OUpdate k2 (mkRow k2 (bs "a") (bs "z") 9); ODel k2; ODelRow w_r1; ODel (bs "zz"); OUpdate k2 w_r1; OSave].
 
 Example guard_nontrivial :
   safe_words w_safe = true /\
